@@ -782,23 +782,24 @@ func rulePQMap(c *Ctx, r *R) {
 	// constructor's own de-duplication; deletes only in Pop and Remove
 	var cb *ssa.Function
 	if ctor := c.fn("container/xheap.NewPriorityQueue"); ctor != nil {
-		instrs(ctor, func(b *ssa.BasicBlock, i int, in ssa.Instruction) {
-			call, ok := in.(*ssa.Call)
+		for _, d := range deepInstrs(ctor, 2) { // heap.New may be called by a constructor helper (newInner(less, indexChanged, initial))
+			call, ok := d.in.(*ssa.Call)
 			if !ok {
-				return
+				continue
 			}
 			cal := staticCallee(&call.Call)
-			if cal == nil || fname(cal) != "New" || len(call.Call.Args) < 2 {
-				return
+			if cal == nil || fname(cal) != "New" || len(call.Call.Args) < 2 || rootFn(origin(cal)).Pkg == nil || !strings.HasSuffix(rootFn(origin(cal)).Pkg.Pkg.Path(), "internal/heap") {
+				continue
 			}
-			for _, a := range call.Call.Args {
+			for _, a0 := range call.Call.Args {
+				a := argOf(a0, d.calls)
 				if sig, ok := a.Type().Underlying().(*types.Signature); ok && sig.Params().Len() == 2 && sig.Results().Len() == 0 {
 					if f, _ := funcAndReceiver(a); f != nil {
 						cb = f
 					}
 				}
 			}
-		})
+		}
 	}
 	for _, fn := range c.funcsOfPkg("container/xheap") {
 		name := c.nameOf(fn)
@@ -855,17 +856,18 @@ func rulePQInitial(c *Ctx, r *R) {
 		return
 	}
 	var nw *ssa.Call
-	instrs(fn, func(b *ssa.BasicBlock, i int, in ssa.Instruction) {
-		if call, ok := in.(*ssa.Call); ok {
-			if cal := staticCallee(&call.Call); cal != nil && fname(cal) == "New" && cal.Pkg != nil && strings.HasSuffix(cal.Pkg.Pkg.Path(), "internal/heap") {
-				nw = call
+	var nwChain []*ssa.Call
+	for _, d := range deepInstrs(fn, 2) {
+		if call, ok := d.in.(*ssa.Call); ok {
+			if cal := staticCallee(&call.Call); cal != nil && fname(cal) == "New" && rootFn(origin(cal)).Pkg != nil && strings.HasSuffix(rootFn(origin(cal)).Pkg.Pkg.Path(), "internal/heap") {
+				nw, nwChain = call, d.calls
 			}
 		}
-	})
+	}
 	good := false
 	why := "heap.New call not found"
 	if nw != nil {
-		arg := nw.Call.Args[len(nw.Call.Args)-1]
+		arg := argOf(nw.Call.Args[len(nw.Call.Args)-1], nwChain)
 		// resolve through the cell of `initial` (reassigned) to a phi of appends rooted in initial[:0]
 		var roots []ssa.Value
 		paramMap := map[*ssa.Function]*ssa.Call{}
